@@ -155,11 +155,64 @@ def model_lines(kind, tags, desc):
     return names, ops
 
 
+def select_pass(chk, alljobs, tie, env):
+    """runs the real Import on every job and compares the selection of every file with the model"""
+    lines = [json.dumps(j) for j in alljobs]
+    outs = C.run_gvh_lines(["select"], lines, name="gvh_c18", extra_env=env, timeout=3000)
+    ops, impl, groups = [], [], []
+    for j, o in zip(alljobs, outs):
+        r = json.loads(o)
+        kind = "std" if "std" in j else "user"
+        if r.get("err") and r["err"] != "nogo" and not r.get("desc"):
+            if "std" in j:
+                continue   # package not present in this GOROOT
+            raise RuntimeError("import failed: %s" % r["err"])
+        if r.get("err") and r["err"] != "nogo":
+            raise RuntimeError("import failed: %s" % r["err"])
+        names, mops = model_lines(kind, j.get("tags", []), r.get("desc") or [])
+        go = set(r.get("go") or [])
+        js = set(r.get("js") or [])
+        start = len(ops)
+        for nm, op in zip(names, mops):
+            ops.append(op)
+            impl.append("go=%d js=%d" % (1 if nm in go else 0, 1 if nm in js else 0))
+        groups.append((start, len(ops), r.get("err") == "nogo"))
+        chk.count("packages:" + kind + (":nogo" if r.get("err") == "nogo" else ""))
+        for nm in j.get("links", []):
+            chk.count("symlinked:" + ("incjs" if nm.endswith(".inc.js") else ("go" if nm.endswith(".go") else "other")))
+    # shadow ops: the same files with the _test flag cleared tell whether a test file would build, which decides
+    # whether the directory is a package at all (go/build NoGoError => nothing of the directory is used, incl. .inc.js)
+    def untest(op):
+        p = op.split(" ")
+        p[8] = "0"
+        return " ".join(p)
+    shadow = C.run_driver("C18", [untest(o) for o in ops])
+    model = C.run_driver("C18", ops)
+    for (s0, e0, nogo) in groups:
+        selected_dir = any(a.startswith("go=1") for a in shadow[s0:e0])
+        if not selected_dir:
+            for i in range(s0, e0):
+                model[i] = "go=0 js=0"
+        if nogo == selected_dir:
+            chk.add_tie_break(tie + "-dir", "directory of %s" % ops[s0] if e0 > s0 else "empty", "nogo=%s" % nogo, "selected=%s" % selected_dir)
+
+    def kind(op, ans):
+        p = op.split(" ")
+        return "%s:%s:%s" % (p[2], "gobuild" if p[11] != "-" else ("plusbuild" if p[12] != "-" else "plain"), ans)
+
+    def nontrivial(op, ans):
+        return True
+
+    chk.compare(tie, ops, impl, model, kind=kind)
+
+
 def run(tier, seed):
     chk = C.Check("C18", tier, seed)
     chk.rule = ("generated package directories (files with //go:build expressions over a 31-tag vocabulary nested to depth 3, "
                 "legacy +build lines, name suffix combinations, cgo files, .inc.js files, hidden files) imported through the real "
-                "build.NewBuildContext(tags).Import with random -tags sets, plus GOROOT packages (std as js/wasm); one case = one "
+                "build.NewBuildContext(tags).Import with random -tags sets, plus GOROOT packages (std as js/wasm); a second pass places the "
+                "project directories next to a symlinked GOROOT under names that start with the GOROOT string (<GOROOT>-apps, <GOROOT>x, "
+                "<GOROOT>.d/sub ...): the location of user code must not change its classification; one case = one "
                 "(file, tag set); non-trivial = distinct (file description, tag set)")
     chk.trusted = ["Lean 4.33 kernel; axioms propext/Classical.choice/Quot.sound at most",
                    "GV.Model.BuildTags transcribes go/build's matchTag/goodOSArchFile/shouldBuild; tied by this differential run",
@@ -205,53 +258,26 @@ def run(tier, seed):
     jobs = gen_jobs(chk.rng, n)
     std_jobs = [{"id": "s%d" % i, "std": pth, "tags": tg} for i, pth in enumerate(STD_PKGS)
                 for tg in ([[]] if tier == "quick" else [[], ["netgo2", "linux"], ["wasm", "foo"]])]
-    lines = [json.dumps(j) for j in jobs + std_jobs]
-    outs = C.run_gvh_lines(["select"], lines, name="gvh_c18", extra_env=env_clean, timeout=3000)
-    ops, impl, groups = [], [], []
-    for j, o in zip(jobs + std_jobs, outs):
-        r = json.loads(o)
-        kind = "std" if "std" in j else "user"
-        if r.get("err") and r["err"] != "nogo" and not r.get("desc"):
-            if "std" in j:
-                continue   # package not present in this GOROOT
-            raise RuntimeError("import failed: %s" % r["err"])
-        if r.get("err") and r["err"] != "nogo":
-            raise RuntimeError("import failed: %s" % r["err"])
-        names, mops = model_lines(kind, j.get("tags", []), r.get("desc") or [])
-        go = set(r.get("go") or [])
-        js = set(r.get("js") or [])
-        start = len(ops)
-        for nm, op in zip(names, mops):
-            ops.append(op)
-            impl.append("go=%d js=%d" % (1 if nm in go else 0, 1 if nm in js else 0))
-        groups.append((start, len(ops), r.get("err") == "nogo"))
-        chk.count("packages:" + kind + (":nogo" if r.get("err") == "nogo" else ""))
-        for nm in j.get("links", []):
-            chk.count("symlinked:" + ("incjs" if nm.endswith(".inc.js") else ("go" if nm.endswith(".go") else "other")))
-    # shadow ops: the same files with the _test flag cleared tell whether a test file would build, which decides
-    # whether the directory is a package at all (go/build NoGoError => nothing of the directory is used, incl. .inc.js)
-    def untest(op):
-        p = op.split(" ")
-        p[8] = "0"
-        return " ".join(p)
-    shadow = C.run_driver("C18", [untest(o) for o in ops])
-    model = C.run_driver("C18", ops)
-    for (s0, e0, nogo) in groups:
-        selected_dir = any(a.startswith("go=1") for a in shadow[s0:e0])
-        if not selected_dir:
-            for i in range(s0, e0):
-                model[i] = "go=0 js=0"
-        if nogo == selected_dir:
-            chk.add_tie_break("select-dir", "directory of %s" % ops[s0] if e0 > s0 else "empty", "nogo=%s" % nogo, "selected=%s" % selected_dir)
-
-    def kind(op, ans):
-        p = op.split(" ")
-        return "%s:%s:%s" % (p[2], "gobuild" if p[11] != "-" else ("plusbuild" if p[12] != "-" else "plain"), ans)
-
-    def nontrivial(op, ans):
-        return True
-
-    chk.compare("select", ops, impl, model, kind=kind)
+    select_pass(chk, jobs + std_jobs, "select", env_clean)
+    # --- where the project lives must not matter: project directories whose PATH merely starts with the GOROOT string
+    # (siblings like <GOROOT>-apps, <GOROOT>x, <GOROOT>.d/sub) are user code (js/ecmascript); GOROOT is a symlink in a
+    # scratch directory so that such siblings can be created without touching the real GOROOT's parent ---
+    import shutil, subprocess
+    sc = C.scratch("gvc18")
+    try:
+        goroot = subprocess.run(["go", "env", "GOROOT"], capture_output=True, text=True, env=dict(os.environ, GOTOOLCHAIN="local")).stdout.strip()
+        os.symlink(goroot, os.path.join(sc, "go"))
+        env_sib = dict(env_clean, GOPHERJS_GOROOT=os.path.join(sc, "go"), VERIF_SCRATCH=sc)
+        wheres = ["go-apps", "gox", "go.d/sub", "go_/a/b", "work", "go1/src/app", "g"]
+        sib = gen_jobs(chk.rng, (240 if tier == "thorough" else 50) * (3 if widen else 1))
+        for i, j in enumerate(sib):
+            j["id"] = "w%d" % i
+            j["where"] = wheres[i % len(wheres)]
+            chk.count("project-dir:" + j["where"])
+        std_sib = [{"id": "ws%d" % i, "std": pth, "tags": []} for i, pth in enumerate(STD_PKGS[:12])]
+        select_pass(chk, sib + std_sib, "select-sibling-of-goroot", env_sib)
+    finally:
+        shutil.rmtree(sc, ignore_errors=True)
     return chk.finish()
 
 
